@@ -4,8 +4,8 @@ import json, sys
 TECH = "symbolic execution of the go/ssa form of /repo (own SSA->SMT-LIB2 executor, regenerated from the working tree each run) + SMT verdict (z3/cvc5) per assertion over all values inside the stated bounds; counterexamples replayed natively"
 TRUST = "Trusted base: the gosym executor, its term simplifier and stdlib models (validated every run by concrete conformance vectors against the native build and by native replay of every solver model), and the SMT solvers (z3 5.1.0/4.8.12, cvc5 1.0.3; cross-checked in the thorough tier). "
 CHECKS = {
- "C01": ("Per opcode x width setting x interpreter, one solver-decided comparison of the real Step against an independent 65C816 reference over an arbitrary native-mode register state and 16 MiB memory; sequences by induction on the flag-byte invariant.", TRUST + "Oracle: spec/w65816 (DESIGN Appendix A). Decimal-mode ADC/SBC is a listed known finding (region D=1).", "§6 C01"),
- "C02": ("Both real Step functions on one symbolic state and memory; all registers, flags, counters, return values, failure status and memory compared; any number of steps by induction.", TRUST, "§6 C02"),
+ "C01": ("Per opcode x width setting x interpreter, one solver-decided comparison of the real Step against an independent 65C816 reference over an arbitrary native-mode register state and 16 MiB memory; sequences by induction on the flag-byte invariant, plus two- and three-instruction jobs (block moves in every combination, save/restore brackets, every opcode twice, save-disturb-restore and use-overwrite-use triples) for state an interpreter keeps between steps.", TRUST + "Oracle: spec/w65816 (DESIGN Appendix A). Decimal-mode ADC/SBC is a listed known finding (region D=1).", "§6 C01"),
+ "C02": ("Both real Step functions on one symbolic state and memory; all registers, flags, counters, return values, failure status and memory compared; any number of steps by induction, plus two- and three-instruction lockstep jobs for state kept between steps.", TRUST, "§6 C02"),
  "C03": ("One call of every instruction-emitting method (enumerated from go/types each run) with all operand values and tracked flags symbolic; expected bytes from the 65816 opcode matrix and the method NAME; solver/simplifier verdict per clause.", TRUST + "Oracle: spec/w65816 opcode matrix + the naming convention in internal/asmgen.", "§6 C03"),
  "C04": ("Every assertion is an SMT query over one fully symbolic 24-bit address per mapper; unsat = holds for all 2^24 addresses (loop-free code).", TRUST, "§6 C04"),
  "C05": ("Implementation vs. declarative region table for an arbitrary 24-bit bus/pak address; each clause one bit-vector query over the whole domain.", TRUST + "Oracle: spec/cartmap, the transcription of the library's documented region tables (DESIGN Appendix B).", "§6 C05"),
